@@ -557,7 +557,10 @@ def implicit_sites(pm, ctx, reach, irf):
                     if (not pol) and isinstance(e, ast.Call) and call_name(e) == 'isinstance' \
                             and isinstance(e.args[0], ast.Name) and e.args[0].id in params:
                         pname = e.args[0].id
-                        others = [(unparse(x), q) for x, q in ats if x is not e]
+                        # (what earlier, independent guard blocks left behind says nothing
+                        # about this parameter)
+                        others = [(unparse(x), q) for x, q in ats if x is not e and
+                                  not getattr(x, '_synthetic', False)]
                         if all(t in ('%s is not None' % pname, pname) and q for t, q in others):
                             typed_params.add(pname)
         for n in own_nodes(f.node):
